@@ -357,6 +357,26 @@ func runC08(r *ev.Run) {
 			r.Add("transitions", 3)
 			r.Add("tx_executions", 1)
 		}
+		if gasUsed > 12 {
+			// large gas costs: walk down the exhaustion points. A limit one below what was used makes the
+			// last charge fail; the gas reported then is the sum of the earlier charges, and so on.
+			for g, steps := gasUsed-1, 0; g > 1 && steps < 16; steps++ {
+				what, used := c08OneG(c, t, uint64(g), menu, "atomic")
+				report(t.Name, uint64(g), "atomic", what)
+				r.Add("transitions", 3)
+				r.Add("tx_executions", 1)
+				r.Add("gas_exhaustion_points_walked", 1)
+				gases = append(gases, uint64(g))
+				if used <= 0 || used > g {
+					break
+				}
+				if used == g {
+					g-- // the limit was reached exactly: step below it
+				} else {
+					g = used - 1
+				}
+			}
+		}
 		if ji%37 == 0 {
 			r.Sample(map[string]any{"pre_state": pn, "tx": t.Name, "gas_limits": gases, "code_with_plenty_gas": code}, 6)
 		}
@@ -374,19 +394,25 @@ func runC08(r *ev.Run) {
 
 // c08One evaluates one (pre-state, tx, gas) case.
 func c08One(c *c08ctx, t txT, gas uint64, menu []txT, mode string) string {
+	w, _ := c08OneG(c, t, gas, menu, mode)
+	return w
+}
+
+// c08OneG also returns the gas that the transaction under test reported as used.
+func c08OneG(c *c08ctx, t txT, gas uint64, menu []txT, mode string) (string, int64) {
 	yDump, _, _, _, what := c.after(letter{Name: "empty"}, nil, nil)
 	if what != "" {
-		return what
+		return what, 0
 	}
 	if mode == "burst" {
 		bDump, _, _, _, what := c.after(letter{Name: "empty"}, nil, menu)
 		if what != "" {
-			return what
+			return what, 0
 		}
 		if d := dumpDiff(bDump, yDump); d != "" {
-			return "a burst of CheckTx and EstimateGas calls changed committed state:" + d
+			return "a burst of CheckTx and EstimateGas calls changed committed state:" + d, 0
 		}
-		return ""
+		return "", 0
 	}
 	// signer's nonce before
 	t.Gas = gas
@@ -398,35 +424,35 @@ func c08One(c *c08ctx, t txT, gas uint64, menu []txT, mode string) string {
 		// gas limit 0 must be expressible: buildBlock treats 0 as "plenty", so use an explicit fee
 		tx.Gas = 0
 	}
-	xDump, code, _, nonceX, what := c.after(letter{Name: t.Name, Txs: []txT{withGas(tx, gas)}}, &tx, nil)
+	xDump, code, gasX, nonceX, what := c.after(letter{Name: t.Name, Txs: []txT{withGas(tx, gas)}}, &tx, nil)
 	if what != "" {
-		return what
+		return what, gasX
 	}
 	if code == 0 {
-		return ""
+		return "", gasX
 	}
 	_, _, _, nonceY, _ := c.after(letter{Name: "empty"}, &tx, nil)
 	if nonceX == nonceY {
 		if d := dumpDiff(xDump, yDump); d != "" {
-			return fmt.Sprintf("failed (code %d) without advancing the nonce, yet the state differs from the state without it:%s", code, d)
+			return fmt.Sprintf("failed (code %d) without advancing the nonce, yet the state differs from the state without it:%s", code, d), gasX
 		}
-		return ""
+		return "", gasX
 	}
 	if nonceX != nonceY+1 {
-		return fmt.Sprintf("failed (code %d) and the signer's nonce went from %d to %d", code, nonceY, nonceX)
+		return fmt.Sprintf("failed (code %d) and the signer's nonce went from %d to %d", code, nonceY, nonceX), gasX
 	}
 	t0 := txT{Name: "atomic-failing-twin", Signer: t.Signer, Method: staking.MethodTransfer, Body: cbor.RawMessage([]byte{0x61, 0x78}), FeeAmt: t.FeeAmt, NoFee: t.NoFee}
 	zDump, zcode, _, _, what := c.after(letter{Name: "twin", Txs: []txT{withGas(t0, gas)}}, &t0, nil)
 	if what != "" {
-		return what
+		return what, gasX
 	}
 	if zcode == 0 {
-		return "harness: the atomic failing twin succeeded"
+		return "harness: the atomic failing twin succeeded", gasX
 	}
 	if d := dumpDiff(xDump, zDump); d != "" {
-		return fmt.Sprintf("failed (code %d) but left more than fee and nonce behind; difference to a twin that only paid the fee and advanced the nonce:%s", code, d)
+		return fmt.Sprintf("failed (code %d) but left more than fee and nonce behind; difference to a twin that only paid the fee and advanced the nonce:%s", code, d), gasX
 	}
-	return ""
+	return "", gasX
 }
 
 // withGas sets an exact gas limit (buildBlock interprets Gas==0 as "plenty").
